@@ -336,7 +336,7 @@ fn cases(ctx: &Ctx, curve: &str) -> Vec<Case> {
     for cfg in [GenCfg::simple(0, 0), GenCfg::simple(1, 0), GenCfg::simple(2, 0), GenCfg::simple(3, 0), GenCfg::simple(1, 1), GenCfg::simple(2, 3), GenCfg::simple(0, 2), GenCfg { m: 0, ..GenCfg::simple(2, 1) }, GenCfg { pending1: true, ..GenCfg::simple(3, 2) }] {
         v.push(Case { curve: curve.into(), seed: r.u64(), cfg, taint: true });
     }
-    let n = ctx.n(40, 1500);
+    let n = ctx.n(150, 3000);
     for i in 0..n {
         let big = i % 4 == 0;
         let mut cfg = random_cfg(&mut r, if big { 64 } else { 6 });
